@@ -1365,6 +1365,19 @@ func normCond(c Val, pol bool) (Val, bool) {
 				c, pol = mkBin(token.LSS, x.Y, x.X, bt), !pol
 				continue
 			case token.LSS:
+				// 0 < len(s)  ==>  !(s == "")      len(s) < 1  ==>  s == ""      (strings)
+				if isConstInt(x.X, 0) {
+					if sv, ok := lenOfString(x.Y); ok {
+						c, pol = mkBin(token.EQL, sv, strV(""), bt), !pol
+						continue
+					}
+				}
+				if isConstInt(x.Y, 1) {
+					if sv, ok := lenOfString(x.X); ok {
+						c = mkBin(token.EQL, sv, strV(""), bt)
+						continue
+					}
+				}
 				// (x + c) < k  ==>  x < k - c   and   k < (x + c)  ==>  k - c < x   (integer induction arithmetic)
 				if k, isK := constInt(x.Y); isK {
 					if s, ok := x.X.(*BinV); ok && s.Op == token.ADD {
@@ -1383,6 +1396,11 @@ func normCond(c Val, pol bool) (Val, bool) {
 					}
 				}
 			case token.EQL:
+				// equivalent spellings of string / byte-slice comparisons
+				if r, ok := canonCompare(x); ok {
+					c = r
+					continue
+				}
 				// b == true  ==>  b      b == false  ==>  !b
 				if isBoolType(x.X.Type()) {
 					if k, isK := constBool(x.Y); isK {
@@ -2397,4 +2415,37 @@ func constPrefixByte(s Val, i Val) (byte, bool) {
 		}
 		s = b.X
 	}
+}
+
+func lenOfString(v Val) (Val, bool) {
+	cv, ok := v.(*CallV)
+	if !ok || cv.Callee != "len" || len(cv.Args) != 1 || !isStringType(cv.Args[0].Type()) {
+		return nil, false
+	}
+	return cv.Args[0], true
+}
+
+func strV(s string) Val { return constOf(constant.MakeString(s), types.Typ[types.String]) }
+
+// canonCompare: len(s) == 0 is s == ""; strings.Compare(a, b) == 0 is a == b; bytes.Compare(a, b) == 0 is
+// bytes.Equal(a, b).
+func canonCompare(x *BinV) (Val, bool) {
+	bt := types.Typ[types.Bool]
+	for _, p := range [][2]Val{{x.X, x.Y}, {x.Y, x.X}} {
+		if !isConstInt(p[1], 0) {
+			continue
+		}
+		if sv, ok := lenOfString(p[0]); ok {
+			return mkBin(token.EQL, sv, strV(""), bt), true
+		}
+		if cv, ok := p[0].(*CallV); ok && len(cv.Args) == 2 {
+			switch cv.Callee {
+			case "strings.Compare":
+				return mkBin(token.EQL, cv.Args[0], cv.Args[1], bt), true
+			case "bytes.Compare":
+				return mkCall("bytes.Equal", nil, cv.Args, "", 0, 1, bt), true
+			}
+		}
+	}
+	return nil, false
 }
